@@ -8,6 +8,9 @@
    padded to 50 / 300 keys.
 3. code -> spec: the recorded traces (snapshot orders, mark calls, returned ids, metrics, dials, bytes at the client)
    are validated by TLC (CipherListTrace): verdict from the property layer only, mechanism differences are drift.
+4. concurrent family: 8-16 goroutines of lookups (through the real authenticator) and marks on one real list, without
+   and with Updates; call/return traces validated by TLC (every snapshot a permutation of a list current during the
+   call, every valid client authenticated, nobody else).
 """
 import json, os
 import vlib
@@ -85,7 +88,7 @@ def replay_behaviours(ctx, behs, desc, seed):
     json.dump(behs, open(bf, "w"))
     tf = os.path.join(ctx.scratch, "cl-trace-%d.ndjson" % seed)
     info, _ = ta_common.run_driver(ctx, [drv, "beh", "-in", bf, "-out", tf, "-seed", str(seed), "-par", "16",
-                                         "-timeout", "2000"], "beh")
+                                         "-timeout", "2000"], "beh", module="CipherList")
     ctx.cov.setdefault("handler_panics_logged", 0)
     ctx.cov["handler_panics_logged"] += info.get("panics_logged", 0)
     skipped = info.get("skipped_late", 0)
@@ -108,6 +111,40 @@ def replay_behaviours(ctx, behs, desc, seed):
     return rows
 
 
+def concurrent(ctx):
+    """Concurrent lookup / mark family (C01 quantifies over concurrent lookups and key-list replacements too): G
+    goroutines of lookups through the real authenticator (4 client IPs, valid / foreign / corrupted / short openers) and
+    direct MarkUsedByClientIP calls on ONE real list - first with a list that stays put (only lookups and marks
+    interleave), then with Updates.  Every goroutine records its own call/return events with monotonic stamps; TLC
+    (CipherListTrace, concurrent part): every snapshot is a permutation of a list generation current during the call,
+    every valid client is authenticated, nobody else is."""
+    drv = ta_common.driver(ctx)
+    shapes = [dict(g=8, upd=1, n=800, size=6, rounds=3, pace=1, gens=1),
+              dict(g=16, upd=1, n=300, size=6, rounds=2, pace=2000, gens=60)]
+    if not ctx.quick:
+        shapes += [dict(g=32, upd=2, n=1500, size=10, rounds=3, pace=3000, gens=60),
+                   dict(g=4, upd=1, n=6000, size=3, rounds=3, pace=1, gens=1)]
+    for i, sh in enumerate(shapes):
+        tf = os.path.join(ctx.scratch, "c01conc%d.ndjson" % i)
+        cmd = [drv, "conc", "-out", tf, "-seed", str(ctx.seed * 19 + i)]
+        for k, v in sh.items():
+            cmd += ["-" + k, str(v)]
+        desc = "conc %s" % json.dumps(sh, sort_keys=True)
+        try:
+            ta_common.run_driver(ctx, cmd, desc, module="CipherList")
+        except ta_common.DriverCrashed:
+            ctx.cov["skipped"].append("%s: the driver process was killed by a crash in the code under test (reported)" % desc)
+            continue
+        ta_common.validate_cl(ctx, tf, desc, signature_extra={"concurrent": True})
+        rows = vlib.read_ndjson(tf)
+        ctx.cov["evaluations"] += sh["rounds"]
+        ctx.cov["distinct_nontrivial"] += sh["rounds"]
+        ctx.cov.setdefault("concurrent_lookups", 0)
+        ctx.cov["concurrent_lookups"] += sum(1 for r in rows if r.get("ev") == "CResult")
+        ctx.cov.setdefault("concurrent_lookups_authenticated", 0)
+        ctx.cov["concurrent_lookups_authenticated"] += sum(1 for r in rows if r.get("ev") == "CResult" and r.get("st") == "OK")
+
+
 def run(ctx):
     exhaustive(ctx)
     n = 150 if ctx.quick else 1500
@@ -126,11 +163,16 @@ def run(ctx):
             if min(cnt) < 10:
                 raise vlib.Inconclusive("generated behaviours do not cover the stale-Mark-after-Update interleaving "
                                         "(then connection / new key / revoked key: %s)" % cnt)
-        rows = replay_behaviours(ctx, behs, "beh %s" % cfg, ctx.seed * 10 + i)
+        try:
+            rows = replay_behaviours(ctx, behs, "beh %s" % cfg, ctx.seed * 10 + i)
+        except ta_common.DriverCrashed:
+            ctx.cov["skipped"].append("beh %s: the driver process was killed by a crash in the code under test (reported)" % cfg)
+            continue
         total.append(len(behs))
         if i == 0:
             ctx.sample({"behaviour": behs[0]})
             ctx.sample({"trace_head": [ta_common.abbreviate(r) for r in rows[:10]]})
+    concurrent(ctx)
     vlib.write_evidence(ctx, "model_checking",
                         "TLC enumerates all interleavings of <= 3 lookups (snapshot / read / search / mark / serve) with "
                         "Updates for the small key lists; simulated behaviours (distinct as action sequences) are executed "
